@@ -22,7 +22,7 @@ RULE = (
     "bit-identical. Non-trivial: (a) viscous limit active or velocity non-zero, non-cubic grid; (b) field with an interior "
     "extremum (spikes/checkerboard/noise) and lambda >= 1e-3. Distinct = digest of case."
 )
-ASSUMPTIONS = ["viscosity > 0 (the property speaks of nu*dt/dx^2); velocities up to 2^20 in magnitude; finite inputs"]
+ASSUMPTIONS = ["viscosity >= 0 (inviscid nu = 0 included); velocities up to 2^20 in magnitude; finite inputs"]
 BUDGET_S = {"quick": 120.0, "thorough": 1800.0}
 
 SIMS = ["ns2d", "ns3d", "passive2d", "passive3d_scalar", "passive3d_vector"]
@@ -40,7 +40,7 @@ def _dt_strategy(tier, kind):
         vel = draw(gen.vector_field_spec(dim, kinds=[vk if vk not in ("spike",) else "spikes"], max_mag_exp=20 if vk == "spike" else 6))
         return {
             "sim": kind, "shape": draw(gen.grid_shape(dim, 5, 40 if dim == 2 else 10)), "dtype": draw(gen.precisions),
-            "x_range": draw(gen.nice_or_log(1e-2, 1e2)), "nu": draw(gen.log_uniform(1e-6, 1e2)),
+            "x_range": draw(gen.nice_or_log(1e-2, 1e2)), "nu": draw(st.one_of(gen.log_uniform(1e-6, 1e2), gen.log_uniform(1e-6, 1e2), gen.log_uniform(1e-6, 1e2), st.just(0.0))),
             "cfl": draw(gen.floats(0.01, 2.0, 32)), "prefac": draw(gen.floats(0.01, 1.0, 32)), "velocity": vel, "vkind": vk,
             # history on the SAME simulator object: the velocity is overwritten between queries (as every flow step does),
             # optionally with a time step in between
@@ -121,7 +121,7 @@ def _mp_strategy(tier, name):
         return {"kernel": name, "shape": draw(gen.grid_shape(dim, 3, 24 if dim == 2 else 9)), "dtype": draw(gen.precisions),
                 "threads": draw(st.sampled_from([False, 1, 2])),
                 "field": draw(gen.vector_field_spec(3, kinds=["spikes", "checker", "noise", "mixed", "bumps", "poly", "constant"], max_mag_exp=8)),
-                "lam_frac": draw(st.one_of(st.just(1.0), gen.floats(0.001, 1.0, 32)))}
+                "lam_frac": draw(st.one_of(st.just(1.0), st.just(0.0), gen.floats(0.001, 1.0, 32), gen.floats(0.001, 1.0, 32)))}
 
     return case()
 
